@@ -271,6 +271,28 @@ func checkC04(c *Case, s *Stats) error {
 			return err
 		}
 	}
+	if complete && len(m.Keys) >= 2 && (len(c.Keys)+len(scans))%5 == 0 {
+		// many scans open at once in one goroutine: 63..200 iterators stepped
+		// round-robin, and ScanFrom nested that deep with sibling scans
+		ns := []int{63, 64, 65, 66, 100, 128, 129, 200}
+		n := ns[(len(c.Keys)/5)%len(ns)]
+		const want = 6
+		starts := make([]string, n)
+		base := make([][]string, n)
+		for g := range starts {
+			at := (g*7 + len(c.Keys)) % len(m.Keys)
+			starts[g] = m.Keys[at]
+			to := at + want
+			if to > len(m.Keys) {
+				to = len(m.Keys)
+			}
+			base[g] = m.Keys[at:to]
+		}
+		if err := deepScans(st, starts, base, want); err != nil {
+			return err
+		}
+		s.class(fmt.Sprintf("open_scans_in_one_goroutine=%d", n))
+	}
 	s.calls(len(scans))
 	if !complete {
 		cls := fmt.Sprintf("refusal:%s/dedup=%v/vals=%v", c.Opt.mode(), c.Opt.dedup(), c.HasVals)
